@@ -22,7 +22,7 @@ import (
 	"gonum.org/v1/gonum/spatial/kdtree"
 	"gonum.org/v1/gonum/spatial/vptree"
 
-	"verif/harness/internal/core"
+	"gonum.org/v1/gonum/verifharness/internal/core"
 )
 
 func init() {
